@@ -1779,6 +1779,10 @@ class sptensor:
                 factor.shape, np.array(self.shape)[dims]
             ):
                 assert False, "Size mismatch in scale"
+            if isinstance(factor, np.ndarray) and factor.shape != tuple(
+                np.array(self.shape)[dims]
+            ):
+                assert False, "Size mismatch in scale"
             return self.copy()
 
         newvals = None
